@@ -32,7 +32,7 @@ from collections import OrderedDict
 from ..common import REPO, LEAN
 from .. import futil  # noqa: F401  (imports funsor from FUNSOR_REPO before c17_rt does)
 
-from .c17_rt import (FI, STACK, BASE, PROBES, PROBE_CLASS, OBSERVABLE, USER_LEAVES, USER_CHAINS,
+from .c17_rt import (FI, OPT, MODULES, named_obj, STACK, BASE, PROBES, PROBE_CLASS, OBSERVABLE, USER_LEAVES, USER_CHAINS,
                      USER_RULES, CANON, CATCHABLE, ProbeError, RealRun, probe_args, live_names, adjoint_ops,
                      DispatchedInterpretation, PrioritizedInterpretation)
 
@@ -41,28 +41,28 @@ from .c17_rt import (FI, STACK, BASE, PROBES, PROBE_CLASS, OBSERVABLE, USER_LEAV
 # --------------------------------------------------------------------------------------
 
 def read_ast_tables():
-    src = (REPO / "funsor" / "interpretations.py").read_text()
-    tree = ast.parse(src)
     leaves, chains, total, base, callables = [], OrderedDict(), [], [], []
-    for node in tree.body:
-        if isinstance(node, ast.Assign) and len(node.targets) == 1:
-            tgt, val = node.targets[0], node.value
-            if isinstance(tgt, ast.Name) and isinstance(val, ast.Call) and isinstance(val.func, ast.Name):
-                if val.func.id == "DispatchedInterpretation":
-                    leaves.append(tgt.id)
-                elif val.func.id == "PrioritizedInterpretation" and all(isinstance(a, ast.Name) for a in val.args):
-                    chains[tgt.id] = [a.id for a in val.args]
-            elif (isinstance(tgt, ast.Attribute) and tgt.attr == "is_total" and isinstance(tgt.value, ast.Name)
-                  and isinstance(val, ast.Constant) and val.value is True):
-                total.append(tgt.value.id)
-        elif isinstance(node, ast.FunctionDef):
-            if any(isinstance(d, ast.Name) and d.id == "CallableInterpretation" for d in node.decorator_list):
-                callables.append(node.name)
-        elif isinstance(node, ast.Expr) and isinstance(node.value, ast.Call):
-            c = node.value
-            if isinstance(c.func, ast.Name) and c.func.id == "push_interpretation" and len(c.args) == 1 \
-                    and isinstance(c.args[0], ast.Name):
-                base.append(c.args[0].id)
+    for fname in ("interpretations.py", "optimizer.py"):
+        tree = ast.parse((REPO / "funsor" / fname).read_text())
+        for node in tree.body:
+            if isinstance(node, ast.Assign) and len(node.targets) == 1:
+                tgt, val = node.targets[0], node.value
+                if isinstance(tgt, ast.Name) and isinstance(val, ast.Call) and isinstance(val.func, ast.Name):
+                    if val.func.id == "DispatchedInterpretation":
+                        leaves.append(tgt.id)
+                    elif val.func.id == "PrioritizedInterpretation" and all(isinstance(a, ast.Name) for a in val.args):
+                        chains[tgt.id] = [a.id for a in val.args]
+                elif (isinstance(tgt, ast.Attribute) and tgt.attr == "is_total" and isinstance(tgt.value, ast.Name)
+                      and isinstance(val, ast.Constant) and val.value is True):
+                    total.append(tgt.value.id)
+            elif isinstance(node, ast.FunctionDef):
+                if any(isinstance(d, ast.Name) and d.id == "CallableInterpretation" for d in node.decorator_list):
+                    callables.append(node.name)
+            elif isinstance(node, ast.Expr) and isinstance(node.value, ast.Call):
+                c = node.value
+                if isinstance(c.func, ast.Name) and c.func.id == "push_interpretation" and len(c.args) == 1 \
+                        and isinstance(c.args[0], ast.Name):
+                    base.append(c.args[0].id)
     flat = OrderedDict()
     for name, args in chains.items():
         out = []
@@ -72,12 +72,30 @@ def read_ast_tables():
     return dict(leaves=leaves, chains=flat, total=[t for t in total if t in callables], base=base)
 
 
+def read_entry_point_form():
+    """How `funsor.optimizer.apply_optimizer` chooses the interpretations it pushes: the context expression
+    of every `with` in its body, in order, and the number of branching statements (AST, normalised by
+    ast.unparse).  The model of the entry point (`FV.C17.applyOpt`) assumes exactly
+    [unfold, PrioritizedInterpretation(optimize_base, get_interpretation())] and no branches."""
+    tree = ast.parse((REPO / "funsor" / "optimizer.py").read_text())
+    fn = next((n for n in tree.body if isinstance(n, ast.FunctionDef) and n.name == "apply_optimizer"), None)
+    if fn is None:
+        return ["<apply_optimizer not found>"], 0
+    withs, branches = [], 0
+    for node in ast.walk(fn):
+        if isinstance(node, ast.With):
+            withs += [(node.lineno, ast.unparse(i.context_expr)) for i in node.items]
+        elif isinstance(node, (ast.If, ast.IfExp, ast.Try, ast.While, ast.For, ast.Match)):
+            branches += 1
+    return [w for _, w in sorted(withs)], branches
+
+
 def read_live_tables():
     names = live_names()
     leaves, chains, total = [], OrderedDict(), []
-    for name in sorted(vars(FI)):
-        obj = getattr(FI, name)
-        if not isinstance(obj, FI.Interpretation) or names[id(obj)] != name:
+    for name in sorted(set(names.values())):
+        obj = named_obj(name)
+        if names.get(id(obj)) != name:
             continue
         if isinstance(obj, PrioritizedInterpretation):
             chains[name] = [names.get(id(s), "?" + repr(s)) for s in obj.subinterpretations]
@@ -97,7 +115,7 @@ def measure_probe_rules(leaves):
     try:
         STACK.append(FI.reflect)
         for name in leaves:
-            leaf = getattr(FI, name)
+            leaf = named_obj(name)
             ks = []
             for k in PROBES + ["S"]:
                 cls, args = probe_args(k, 0)
@@ -125,6 +143,7 @@ def tables():
     live = read_live_tables()
     live["rules"] = measure_probe_rules(live["leaves"])
     live["adjoint"] = [k for k in PROBES + ["S"] if PROBE_CLASS[k] in adjoint_ops]
+    live["apply_optimizer_with"], live["apply_optimizer_branches"] = read_entry_point_form()
     return live
 
 
@@ -169,6 +188,11 @@ def probeRules : List (String × List String) :=
 
 /-- probe kinds whose class is registered in `funsor.adjoint.adjoint_ops` -/
 def adjointProbes : List String := {lean_str_list(live["adjoint"])}
+
+/-- `funsor.optimizer.apply_optimizer`: the context expression of every `with` in its body, in source
+    order (ast.unparse), and the number of branching statements in it -/
+def applyOptimizerWith : List String := {lean_str_list(live["apply_optimizer_with"])}
+def applyOptimizerBranches : Nat := {live["apply_optimizer_branches"]}
 
 end FV.Gen.C17
 """
@@ -360,6 +384,19 @@ class PyModel:
         elif t == "seq":
             for q in p[1]:
                 self.ex(q, s)
+        elif t == "reinterp":
+            self.ex(("probe", p[1], p[2], p[3]), s)
+        elif t == "applyopt":
+            self.ex(("with", "unfold", ("quiet", ("probe", p[1], False, p[3]))), s)
+            self.ex(("with", "optimize_base", ("probe", p[1], p[2], p[3])), s)
+        elif t == "fb":
+            self.ex(("with", "tape", ("probe", p[1], False, p[2])), s)
+        elif t == "quiet":
+            n = len(self.log)
+            try:
+                self.ex(p[1], s)
+            finally:
+                del self.log[n:]
         elif t in ("with", "deco"):
             i = self.ctx_obj(p[1], s)
             self.enter(i, s)
@@ -413,8 +450,12 @@ def sx_prog(p):
         return "(call %s)" % p[1]
     if t in ("obs", "raise", "skip"):
         return t
-    if t == "probe":
+    if t in ("probe", "reinterp"):      # reinterpret(lazy term) = rebuilding the term where it stands
         return "(probe %s %s %d)" % (p[1], "true" if p[2] else "false", p[3])
+    if t == "applyopt":
+        return "(applyopt %s %s %d)" % (p[1], "true" if p[2] else "false", p[3])
+    if t == "fb":
+        return "(fb %s %d)" % (p[1], p[2])
     if t == "seq":
         return "(seq " + " ".join(sx_prog(q) for q in p[1]) + ")" if p[1] else "skip"
     if t in ("with", "deco"):
@@ -436,6 +477,12 @@ def to_python(p, ind=0, lines=None, fn=None):
         lines.append(pad + "obs()")
     elif t == "probe":
         lines.append(pad + "probe(%r, %r, %r)" % (p[1], bool(p[2]), p[3]))
+    elif t == "applyopt":
+        lines.append(pad + "apply_optimizer(lazy_probe(%r, %r))   # armed=%r" % (p[1], p[3], bool(p[2])))
+    elif t == "reinterp":
+        lines.append(pad + "reinterpret(lazy_probe(%r, %r))   # armed=%r" % (p[1], p[3], bool(p[2])))
+    elif t == "fb":
+        lines.append(pad + "forward_backward(ops.logaddexp, ops.add, lazy_probe(%r, %r))" % (p[1], p[2]))
     elif t == "seq":
         if not p[1]:
             lines.append(pad + "pass")
@@ -502,6 +549,10 @@ ALPHABET = ["eager", "lazy", "reflect", "normalize", "sequential", "moment_match
 # families build the SAME terms (token 1) at every position of a program — that is what a cache can get wrong.
 FULL = [("probe", k, False, 1) for k in PROBES] + [("probe", "a", False, 1)]
 LIGHT = [("probe", "a", False, 1)]
+# library entry points that push interpretations internally, called on lazy probe terms
+ENTRY = [("applyopt", "a", False, 1), ("applyopt", "bin", False, 1), ("applyopt", "b", False, 1),
+         ("reinterp", "a", False, 1)]
+APPLY_KINDS = ["a", "b", "bin"]      # kinds `unfold` leaves alone (checked: gen_unfold_leaves_probes_alone)
 
 
 def nest(chain, kinds, inner, after=None):
@@ -515,7 +566,7 @@ def nest(chain, kinds, inner, after=None):
 
 def prog_chain(chain, kinds):
     """family A: enter the chain, observe and probe at every level, leave normally."""
-    inner = FULL if chain else LIGHT
+    inner = (FULL + ENTRY) if chain else (LIGHT + ENTRY)
     body = nest(chain, kinds, list(inner), after=lambda i: [("obs",)] + (LIGHT if i == 0 else []))
     return ("seq", [("obs",)] + body)
 
@@ -543,6 +594,16 @@ def prog_raise_after(chain, kinds, i, j):
     mid = [("catch", ("seq", inner)), ("obs",)] + LIGHT
     outer = nest(chain[:j], kinds[:j], mid, after=lambda i_: [("obs",)])
     return ("seq", outer + [("obs",)])
+
+
+def prog_entry_points(chain, kinds):
+    """family G: apply_optimizer / reinterpret / forward_backward called at the innermost position of the
+    chain, normally and with a harness rule raising inside apply_optimizer's second phase."""
+    inner = ENTRY + [("fb", "num", 1), ("obs",),
+                     ("catch", ("applyopt", "a", True, 2)), ("obs",),
+                     ("catch", ("applyopt", "bin", True, 2)), ("obs",)] + LIGHT
+    body = nest(chain, kinds, inner, after=lambda i: [("obs",)] + (ENTRY[:1] if i == 0 else []))
+    return ("seq", body + [("obs",)])
 
 
 def prog_tape_reuse(c1, c2, kinds):
@@ -603,6 +664,11 @@ def random_prog(rng, depth, budget):
                 items.append(("catch", call) if rng.random() < 0.4 else call)
             elif r < 0.70:
                 items.append(("obs",))
+            elif r < 0.76:
+                items.append(rng.choice([("applyopt", rng.choice(APPLY_KINDS), rng.random() < 0.3, tok()),
+                                         ("applyopt", rng.choice(APPLY_KINDS), rng.random() < 0.3, tok()),
+                                         ("reinterp", rng.choice(PROBES), rng.random() < 0.3, tok()),
+                                         ("fb", "num", tok())]))
             elif r < 0.80:
                 items.append(("probe", rng.choice(PROBES + ["S"]), rng.random() < 0.3, tok()))
             elif r < 0.88:
@@ -669,7 +735,7 @@ class Checker:
             i = self.py.named(name)
             if not self.py.total(i):
                 continue
-            obj = getattr(FI, name)
+            obj = named_obj(name)
             saved = list(STACK)
             try:
                 STACK.append(obj)
@@ -839,8 +905,8 @@ def candidates(p):
     elif t == "def":
         for c in candidates(p[3]):
             yield ("def", p[1], p[2], c)
-    elif t == "probe" and p[2]:
-        yield ("probe", p[1], False, p[3])
+    elif t in ("probe", "applyopt", "reinterp") and p[2]:
+        yield (t, p[1], False, p[3])
 
 
 # --------------------------------------------------------------------------------------
@@ -893,6 +959,12 @@ def enumerate_shared_cache(ctx, chk):
                     "F:shared-cache")
 
 
+def enumerate_entry_points(ctx, chk, D):
+    for k in range(0, D + 1):
+        for chain in itertools.product(ALPHABET, repeat=k):
+            chk.add(prog_entry_points(list(chain), kinds_for(ctx.rng, k)), "G:entry-points")
+
+
 def enumerate_reuse(ctx, chk):
     for c1 in ALPHABET:
         for c2 in ALPHABET:
@@ -923,17 +995,25 @@ def correspond(ctx, use_driver=True, volume=1):
                 "different stack states: `@k def f` decorated inside every block chain of depth <= 2 and called (normally, raising, "
                 "and from inside another decorated function) inside every block chain of depth <= 2 (quick: depth sum <= 3), for every k "
                 "— the model enters k at call time.  with-vs-decorator per block is drawn from the PRNG.  "
-                "(F) memoize(cache=d) (explicit shared dict) in every chain of depth <= 3 containing it.  The SAME probe terms (token 1) are built at "
+                "(G) library entry points that push interpretations internally — apply_optimizer(lazy term), reinterpret(lazy term), "
+                "forward_backward — called at the innermost position of every chain of depth <= 3 (thorough 4), also with a rule raising "
+                "inside apply_optimizer, and at the innermost position of every family-A chain; (F) memoize(cache=d) (explicit shared dict) in every chain of depth <= 3 containing it.  The SAME probe terms (token 1) are built at "
                 "every position of every program (after each enter, at the innermost position, after each exit), so Memoize caches are hit; "
                 "RANDOM (C): general programs with sequences, nested try/except, substitution, armed probes, depth <= 7, and "
                 "7..9 nested partial interpretations.  Non-trivial = nesting depth >= 2; distinct by program text.")
     if not base_check(ctx, tb):
         return
     chk = Checker(ctx, tb, use_driver=use_driver)
+    for k in APPLY_KINDS:
+        h = chk.py.interp(chk.py.named("unfold"), [], k, False)
+        if not h or h[0] != "reflect":
+            ctx.infra_errors.append(f"unfold rewrites probe kind {k!r} ({h}): the model of apply_optimizer does not apply")
+            return
     D = 4 if ctx.tier == "quick" else 5
     enumerate_all(ctx, chk, D)
     enumerate_reuse(ctx, chk)
     enumerate_shared_cache(ctx, chk)
+    enumerate_entry_points(ctx, chk, 3 if ctx.tier == "quick" else 4)
     enumerate_decorate_call(ctx, chk, ctx.tier != "quick")
     ctx.exhaustive = True
     n_rand = (3000 if ctx.tier == "quick" else 40000) * volume
@@ -961,6 +1041,7 @@ def search(ctx, broken):
     before = have()
     enumerate_all(ctx, chk, 3)
     enumerate_reuse(ctx, chk)
+    enumerate_entry_points(ctx, chk, 2)
     chk.flush()
     if have() > before:
         return
